@@ -8,8 +8,8 @@ errkind_matters  whether a different error *kind* for a rejected input breaks th
 """
 
 PROPS = {
-    "C01": dict(groups=["gmtime"], families=["gmtime"], level="exploration", errkind_matters=True, theorems=[], exhaustive=True),
-    "C02": dict(groups=["utcnew"], families=["utcnew", "utccmp"], level="exploration", errkind_matters=True, theorems=[]),
+    "C01": dict(groups=["gmtime"], families=["gmtime"], level="proof", errkind_matters=True, theorems=["TzVerif.C01." + t for t in ['fields_correct', 'accepted_iff', 'refused', 'range_ends', 'fields_unique', 'week_day', 'year_day']], exhaustive=True),
+    "C02": dict(groups=["utcnew"], families=["utcnew", "utccmp"], level="proof", errkind_matters=True, theorems=["TzVerif.C02." + t for t in ['days_correct', 'new_correct', 'new_accepts_iff', 'unix_time_correct', 'leap_second', 'roundtrip_fields', 'roundtrip_time', 'monotone']]),
     "C03": dict(groups=["zonelookup"], families=["zone", "lookup", "dtfrom"], level="proof", errkind_matters=True, theorems=["TzVerif.C03." + t for t in ['binary_search_correct', 'table_lookup', 'no_transitions', 'conversion_error', 'local_date_time']]),
     "C04": dict(groups=["rulelookup"], families=["zone", "lookup"], level="exploration", errkind_matters=False, theorems=[]),
     "C05": dict(groups=["find", "leap"], families=["zone", "find"], level="exploration", errkind_matters=False, theorems=[]),
@@ -20,7 +20,7 @@ PROPS = {
     "C10": dict(groups=["iana"], families=["tzif", "zone", "lookup", "find"], level="other", errkind_matters=False, theorems=[], special="c10"),
     "C11": dict(groups=["rulenew", "rulepairs"], families=["rulenew"], level="exploration", errkind_matters=True, theorems=[], exhaustive=True),
     "C12": dict(groups=["leap"], families=["zone", "lookup", "find", "dtfrom"], level="proof", errkind_matters=False, theorems=["TzVerif.C12." + t for t in ['to_utc_correct', 'takes_effect_exactly', 'to_utc_monotone', 'to_count_monotone', 'roundtrip', 'to_count_total', 'inserted_shares', 'deleted_skips', 'legacy_counterexample']]),
-    "C13": dict(groups=["zonenew", "lttnew"], families=["zonenew", "lttnew", "zone"], level="exploration", errkind_matters=True, theorems=[]),
+    "C13": dict(groups=["zonenew", "lttnew"], families=["zonenew", "lttnew", "zone"], level="proof", errkind_matters=True, theorems=["TzVerif.C13." + t for t in ['accepts_iff', 'new_iff', 'errors_specific', 'saturating_spacing', 'saturating_step', 'rule_clause_compares_all', 'local_time_type_iff', 'local_time_type_errors', 'designation_alphabet']]),
     "C14": dict(groups=["dt", "zonelookup", "find"], families=["dtnew", "dtfromlocal", "dttn", "dtcmp", "dtfrom", "find"], level="exploration", errkind_matters=False, theorems=[]),
     "C15": dict(groups=["threads"], families=["threads", "lookup", "find", "findn", "dtfrom", "tzifgen"], level="other", errkind_matters=False, theorems=[], special="c15"),
     "C16": dict(groups=["tn", "dt"], families=["utctn", "dttn", "utcnew"], level="proof", errkind_matters=False,
